@@ -399,10 +399,13 @@ class PathEnumerator:
                 self._cond_cache[ck] = self.tb.operand(d, bb, len(blk.stmts))
             cond = self._cond_cache[ck]
             dty = t.j.get("discr_ty")
+            chain = self._copy_chain(dl) if dl is not None else []
             for v, b in arms:
                 e2 = dict(env)
                 if dl is not None:
                     e2[dl] = v
+                    for x in chain:
+                        e2[x] = v
                 evs2, state2 = self._push(evs, state, {"kind": "branch", "bb": bb, "local": dl, "value": v, "span": t.span, "cond": cond, "discr_ty": dty})
                 c2 = self._refine_cls(bb, dl, v, cls)
                 yield from self._next(bb, b, blocks, evs2, e2, c2, backcount, state2)
@@ -413,6 +416,8 @@ class PathEnumerator:
                 if dl is not None and fn.local_ty(dl) == "bool" and taken == {0}:
                     ov = 1
                     e2[dl] = 1
+                    for x in chain:
+                        e2[x] = 1
                 evs2, state2 = self._push(evs, state, {"kind": "branch", "bb": bb, "local": dl, "value": ov if ov is not None else "otherwise", "span": t.span, "cond": cond, "discr_ty": dty})
                 c2 = self._refine_cls(bb, dl, ov, cls) if ov is not None else cls
                 yield from self._next(bb, other, blocks, evs2, e2, c2, backcount, state2)
@@ -420,6 +425,30 @@ class PathEnumerator:
         if k == "call":
             yield from self._call(bb, t, blocks, evs, env, cls, backcount, state)
             return
+
+    def _copy_chain(self, l):
+        """locals that l is a plain copy of (single-definition temporaries only)"""
+        out = []
+        fn = self.fn
+        seen = {l}
+        while True:
+            defs = fn.defs().get(l, [])
+            if len(defs) != 1 or defs[0][2] != "stmt":
+                break
+            rv = defs[0][3].rv
+            if rv.k == "use" and rv.ops[0].place is not None and rv.ops[0].place.is_local():
+                src = rv.ops[0].place.local
+                if src in seen:
+                    break
+                # the source must itself be defined once (otherwise its value may change between copy and use)
+                if len(fn.defs().get(src, [])) != 1 and not (1 <= src <= fn.arg_count and not fn.defs().get(src)):
+                    break
+                out.append(src)
+                seen.add(src)
+                l = src
+            else:
+                break
+        return out
 
     def _next(self, frm, to, blocks, evs, env, cls, backcount, state):
         if self.fn.blocks[to].cleanup:
